@@ -63,6 +63,31 @@ def sample_mol():
     return m
 
 
+if w.get("op") == "library-version":
+    import tempfile, os
+    from molli.storage.ukvfile import UKVFile
+    bad = []
+    for Lib, obj in ((ml.MoleculeLibrary, sample_mol()), (ml.ConformerLibrary, ml.ConformerEnsemble(sample_mol(), n_conformers=2))):
+        d = tempfile.mkdtemp()
+        p = os.path.join(d, "old.lib")
+        with UKVFile(p, "w", h1=b"ML10Library"):
+            pass                                    # an (empty) library file in the legacy format
+        lib = Lib(p, overwrite=True, readonly=False)
+        with lib.writing():
+            lib["a"] = obj
+        try:
+            lib2 = Lib(p)
+            with lib2.reading():
+                back = lib2["a"]
+            if back.n_atoms != obj.n_atoms or back.name != obj.name:
+                bad.append(f"{Lib.__name__}: object written after overwriting a legacy file reads back differently")
+        except BaseException as ex:
+            bad.append(f"{Lib.__name__}(path_of_a_legacy_file, overwrite=True): what is written cannot be read back ({type(ex).__name__}: {str(ex)[:60]})")
+    if bad:
+        print("REPRODUCED:", "; ".join(bad))
+        sys.exit(0)
+    print("not reproduced")
+    sys.exit(1)
 if w.get("op") == "collection-reads":
     import tempfile, os
     d = tempfile.mkdtemp()
